@@ -337,6 +337,9 @@ func (rn *c19Renaming) eq(a, b interface{}, node *c19Node, path []string, where 
 				if yv, ok := y[ck]; ok && !used[ck] {
 					used[ck] = true
 					found = true
+					if forkMap {
+						break // values are not compared: entries of nested calls with equal ids overwrite each other
+					}
 					if d := rn.eq(x[k], yv, node, append(path, k), where+"."+k); d != "" {
 						return d
 					}
